@@ -358,6 +358,8 @@ func (c *chunkReader) Read(p []byte) (int, error) {
 }
 
 func runC20(r *core.Run) {
+	defer racePass(r, "race-C20", "GoString, Symmetrical and Get on one shared matrix")
+
 	lists := labelLists(3)
 	r.Bound("tables", fmt.Sprintf("row and column label lists: every ordered list of 1..3 distinct labels from %q (%d lists each, so every order and rectangular shapes), scores cycling through %v with shift 0%s", ncbiLabels, len(lists), ncbiScores, core.Pick(r, "", "..5")))
 	readNCBI := func(text string) (align.SubstitutionMatrix, error, string) {
